@@ -11,6 +11,10 @@ THEOREMS = [
     "Mtv.Envelope.openClient_serverSeal",
     "Mtv.Envelope.unenc_layout",
     "Mtv.Envelope.unenc_roundtrip",
+    "Mtv.Envelope.seal_sequence_independent",
+    "Mtv.Envelope.open_sequence_independent",
+    "Mtv.Envelope.seal_in_sequence_opens",
+    "Mtv.Envelope.open_in_sequence_opens",
 ]
 RULE = ("operations: c03.seal = real Encrypted.Serialize (random 256-byte keys, salt/session/msg_id/seq_no at their "
         "extremes and random, ack on and off, body lengths covering every residue mod 16 at the magnitudes 0, 16, 32, 240, "
@@ -31,7 +35,18 @@ RULE = ("operations: c03.seal = real Encrypted.Serialize (random 256-byte keys, 
         "transport error-code frames (-404, -429, -444, other values, int32 extremes) before, between and after the packets in "
         "every order (fixed shapes and random walks mixing all of it): every conformant packet must come out of ReadMsg with its "
         "content; c03.par = 2 / 8 / 32 clients of one process sealing and opening at the same time, "
-        "every packet judged by the specification's server (a fixed line when no call disturbs another). distinct = "
+        "every packet judged by the specification's server (a fixed line when no call disturbs another); c03.mix = ONE process, one "
+        "goroutine, a sequence of 2..18 envelope operations of two or three clients (own auth key, salt, session id each) mixing "
+        "REFUSED and accepted ones on both sides — Serialize refused inside ige.Encrypt (nil / empty / 1..127-byte keys: no key "
+        "yet, a damaged session file) before, between and several in a row before good-key sends (every residue of the accepted "
+        "body mod 16, empty / 1 KB / 4 KB / 64 KB bodies refused or accepted), packets of 17 refusal classes (foreign or damaged key "
+        "id, no ciphertext, not whole blocks, declared length beyond / negative, client-parity msg_id, msg_key not matching, "
+        "flipped ciphertext / msg_key bit, auth key too short to open with, no key, fewer than 24 bytes, empty, client "
+        "direction) given to DeserializeEncrypted before conformant server packets, refused and accepted unencrypted messages in "
+        "between; fixed shapes and random walks, each in the modes nogc (debug.SetGCPercent(-1), goroutine locked to its thread: "
+        "a sync.Pool keeps what a refused call put back), p1 (the same under GOMAXPROCS(1)) and gc (two collections before every "
+        "step) — every accepted step judged by the specification's server / opener exactly as a c03.seal / c03.open of its own, "
+        "every step compared with the model's answer for that step alone (seal_sequence_independent). distinct = "
         "distinct operation lines; every line is also run through the Lean model (executable SHA-1/AES/IGE) and compared")
 
 
